@@ -155,6 +155,12 @@ def _():
     return [('least', [hyp, T.Sreach_least(V, e, q0, Sg, P), T.Sreach(V, e, q0, Sg, S0)], P(S0))]
 
 
+@proof('pda', 'EcloP-mono')
+def _():
+    P = SV(REC('PDA'), Const('P_', T.PDAs)); A, B = Const('A_', T.SetC), Const('B_', T.SetC); c = Const('c_', T.Conf); c0 = Const('c0_', T.Conf)
+    return [('least', [ForAll([c], Implies(Select(A, c), Select(B, c))), T.EcloP_least(P, A, T.EcloP(P.z, B)), Select(T.EcloP(P.z, A), c0)], Select(T.EcloP(P.z, B), c0))]
+
+
 def int_ind(P, lo=0):
     """induction on an integer >= lo: P(lo) and (j >= lo and P(j)) => P(j+1)"""
     j = fresh_z('j', z3.IntSort())
@@ -195,10 +201,18 @@ def prove_lemmas(theories, timeout=10):
                 o = Obligation('theory.' + th, '%s/%s' % (n, part), 'lemma', list(avail) + hyps, goal)
                 jobs.append((n, o, None))
             avail.append(f)
+    # generated set identities: each must follow from the pointwise definitions of the set operations alone
+    from . import sets as S_
+    defs = [f for n_, f in S_.GEN_AXIOMS if n_ not in S_.GEN_LEMMAS and not n_.startswith(('fin-', 'card-'))]
+    for n_, f in S_.GEN_AXIOMS:
+        if n_ in S_.GEN_LEMMAS:
+            o = Obligation('theory.sets', n_, 'lemma', list(defs), f); o.skip_relevance = True
+            jobs.append((n_, o, None))
     os_ = [o for (_n, o, _x) in jobs if o is not None]
     from . import sets as S
     from .verify import relevant_generated
-    for o in os_: o.hyps = relevant_generated(o, []) + o.hyps
+    for o in os_:
+        if not getattr(o, 'skip_relevance', False): o.hyps = relevant_generated(o, []) + o.hyps
     discharge(os_, [], timeout=timeout)
     res = {}
     for (n, o, _x) in jobs:
